@@ -19,6 +19,7 @@ def run(tier, seed):
     nsh = 4
     cases, sums, notes = core.run_sharded(exe, "c09", seed, tier, nsh, timeout=1800)
     r.add_cases(cases, "native")
+    core.also_librel(r, tier, True, lambda exe2: core.run_sharded(exe2, "c09", seed, tier, nsh, timeout=1800))
     r.notes += notes
     obs = core.sum_dicts(sums)
     lt = obs.pop("lifetime_spelling_pairs_not_judged", [])
@@ -69,7 +70,7 @@ def arms_part(r):
 def replay(path):
     import subprocess
     rp = core.load_replay(path)
-    exe = core.build_native()
+    exe = core.build_native(libopt="librel" in str(rp.get("engine", "")))
     p = subprocess.run([exe, "c09", "--only", str(rp["case_index"])], stdout=subprocess.PIPE, text=True)
     print(p.stdout[-2000:])
     return 1 if ('"verdict":"violated"' in p.stdout or p.returncode != 0) else 0
